@@ -45,7 +45,7 @@ LEVEL_NOTE = ("Partial by nature: that compile(..., PyCF_ONLY_AST) / ast.parse e
               "threads and code that keeps a reference to the original sys.path list object are outside the model. C15_sys_path_restored needs "
               "non-empty search paths when nothing is found on disk (sys_path() without paths is a no-op; sharpness shown by an Example).")
 MODEL = ("Model.C15_loader", "run_C15")
-COQ_TARGETS = ["Proofs/C15_loader.vo", "Proofs/C15_restore.vo", "Proofs/C15_failures.vo"]
+COQ_TARGETS = ["Proofs/C15_loader.vo", "Proofs/C15_restore.vo", "Proofs/C15_failures.vo", "Proofs/C15_reads.vo"]
 RULE = ("systematic: a fixed package (top, a, sub/__init__, sub/k, compiled .so and .pyc submodules, stub) with one fault kind x one placement x "
         "with/without sys.path effects, loaded under allow / force / both / neither; random: package trees (regular / namespace / single module / "
         "stub-only / zipped / top-level .pyc / garbage .so / absent; .py .pyi .pyc .so submodules, sub-packages, in-package and separate stubs, "
@@ -207,6 +207,19 @@ def gen_tree(rng, tid, p_fault=0.3):
                 e = small_ext(rng, n, "sp1", sub)
                 if wild:   # wildcard sources expose plain values only and must load
                     e["deps"] = []
+                if not wild and rng.random() < 0.4 and not any(m["fault"] or m["vfault"] for m in e["mods"] if len(m["parts"]) == 1):
+                    # a re-entered package with stubs and a private sibling of its own: loads nested one level deeper
+                    e["mods"].append(mk_mod([n], "initpyi"))
+                    e["deps"] = e["deps"] + [{"target": "_" + n, "wild": True, "exported": True}]
+                    inner = small_ext(rng, "_" + n, "sp1", p_fault=0.1)
+                    for m in inner["mods"]:
+                        if len(m["parts"]) == 1:      # the sibling's top module loads (a failed nested load is simply asked for again later)
+                            m["vfault"], m["fault"], m["walk"] = None, None, None
+                    if rng.random() < 0.5:       # ... and one level deeper still
+                        inner["mods"].append(mk_mod(["_" + n], "initpyi"))
+                        inner["deps"] = [{"target": "__" + n, "wild": True, "exported": True}]
+                        pkgs.append(mk_pkg("__" + n, "sp1", "regular", [mk_mod(["__" + n], "init")] + rand_children(rng, ["__" + n], ["x"], 0.3, kinds=("py", "so", "pyc"))))
+                    pkgs.append(inner)
                 pkgs.append(e)
     guard = rng.random() < 0.5
     for e in pkgs:
@@ -412,12 +425,16 @@ def found_of(base, tree, name, find_stubs, hidden=False):
 
 def reorder(found, order):
     """siblings of equal depth are loaded in directory-listing order: take it from the observed agent sequence"""
-    def key(mf):
-        return (len(mf[0]), order.get((".".join(mf[0]), mf[3]), 10 ** 6), mf[0], mf[3])
+    def pos(mf, after=-1):
+        return next((i for i in order.get((".".join(mf[0]), mf[3]), []) if i > after), 10 ** 6)
+
+    def key(mf):      # os.walk order as observed (a package's own files come before its sub-directories); never-handled files last
+        return (pos(mf), len(mf[0]), mf[0], mf[3])
     if found[0] == "pkg":
         found[2] = sorted(found[2], key=key)
-        if found[3]:
-            found[3][0][1] = sorted(found[3][0][1], key=key)
+        if found[3]:        # the stubs package is loaded after the package itself: its files are the later occurrences
+            top_at = max(order.get((".".join(found[3][0][0][0]), found[3][0][0][3]), [-1]))
+            found[3][0][1] = sorted(found[3][0][1], key=lambda mf: (pos(mf, top_at), len(mf[0]), mf[0], mf[3]))
     elif found[0] == "ns":
         found[2] = sorted(found[2], key=key)
     return found
@@ -824,7 +841,7 @@ def phases_of(base, tree, case, obs):
             wbase = base
         order = {}
         for i, e in enumerate(obs["events"][ld["events_at"]:]):
-            order.setdefault((e[1], e[2]), i)
+            order.setdefault((e[1], e[2]), []).append(i)
         # find_stubs_package as this loader's own root load received it (`griffe check` does not pass it for the old reference)
         wcase = dict(case, by="name", opts=dict(case["opts"], find_stubs_package=bool(loads[0][6]) if loads else False))
         trees = request_trees(loads)
@@ -879,11 +896,15 @@ def expected_reentries(tree, case, outcomes, G, root_has_stubs=False):
     class Abort(Exception):
         pass
 
+    own_stubs = {p["name"] for p in tree["pkgs"] if p["kind"] == "regular" and any(m["kind"] == "initpyi" and len(m["parts"]) == 1 for m in p["mods"])}
+
     def request(name):
         reqs.append(name)
         oc = outcomes.get(name)
         if oc == "ok":
             coll.append(name)
+            if name in own_stubs:      # the re-entered package has stubs: its own _load_package expands wildcards, re-entering load one level deeper
+                _wildcards(name, None, coll, request, visible_deps, G)
         elif oc not in ("ModuleNotFoundError", "ImportError", "LoadingError"):
             raise Abort     # not swallowed: resolution stops here
         return oc == "ok"
@@ -945,7 +966,7 @@ def model_input(base, tree, case, reqs, obs):
         return ["entry", o["allow_inspection"], o["force_inspection"], True, phases_of(base, tree, case, obs), syspath]
     order = {}
     for i, e in enumerate(obs.get("events", [])):
-        order.setdefault((e[1], e[2]), i)
+        order.setdefault((e[1], e[2]), []).append(i)
     trees = request_trees(obs.get("loads", []))
     if trees:
         trees[0][0] = root_key(tree, case)
@@ -988,7 +1009,7 @@ def canon_model(out, names, before=("<orig>",)):
             ev[(e[0], ".".join(e[1]), e[2] if len(e) > 2 else "")] += 1
     tried = Counter((n, s) for a, n, s in agents)
     loaded = {n for (n, s), k in tried.items() if "." in n and k > skipped[(n, s)]} | {t for (t, r), k in done.items() if r == "ok"}
-    return {"result": res, "outcomes": done, "agents": Counter(agents), "execs": execs, "loaded": loaded, "reads": reads,
+    return {"result": res, "outcomes": done, "agents": Counter(agents), "execs": execs, "loaded": loaded, "reads": reads, "sequence": [list(a) for a in agents],
             "mods": {".".join(m) for m in mods if m[0] in names}, "restored": bool(cur_same) and heap0 == [parts_of(s) for s in before],
             "skips": {k for k in ev if k[0] == "skip"}, "orphans": {k for k in ev if k[0] == "orphan"}}
 
@@ -1009,6 +1030,7 @@ def canon_obs(o, rootkey=None, roots=(0,)):
     if result != "ok" and o.get("through_loader") is False:
         result = "ok"          # raised by what the command does with the loaded trees (serialising, diffing), not by a load
     return {"result": result, "agents": Counter(tuple(e) for e in o["events"]), "reads": Counter(tuple(r) for r in o.get("reads", [])),
+            "sequence": [list(e) for e in o["events"]],
             "outcomes": Counter((rootkey if i in roots and rootkey else c[0], c[2]) for i, c in enumerate(o.get("loads", []))),
             "execs": Counter((e["exec"], tuple(e["path"])) for e in o["execs"]), "loaded": set(o["loaded"]), "mods": set(o["newmods"]),
             "restored": o["path_same_object"] and o["path_same_contents"] and o["orig_contents_same"]}
@@ -1141,7 +1163,7 @@ def compare_models(ctx, base_of, batch):
         if case.get("builtin"):
             m["mods"] -= {case["builtin"]}
             r["loaded"] -= {x for x in r["loaded"] if x != case["builtin"]}
-        diff = {f: {"model": _show(m[f]), "impl": _show(r[f])} for f in ("result", "outcomes", "agents", "reads", "loaded", "execs", "mods", "restored")
+        diff = {f: {"model": _show(m[f]), "impl": _show(r[f])} for f in ("result", "outcomes", "agents", "sequence", "reads", "loaded", "execs", "mods", "restored")
                 if m[f] != r[f] and not (f == "loaded" and (r["result"] != "ok" or len(o.get("loaders", [])) > 1))}
         for s in m["skips"]:
             ctx.observe("model_branch", "skip" + s[2])
@@ -1433,10 +1455,13 @@ def explore(ctx):
     trees, cases, batch = run_all(ctx, ctx.budget(200, 2500), ctx.budget(4, 6), ctx.budget(4, 6))
     # every branch of the model must have been reached
     need = {"mode": ["static", "allow", "force", "allow+force"], "result": ["ok", "LoadingError", "ModuleNotFoundError", "ImportError", "FileNotFoundError"],
-            "model_branch": ["orphan", "skip.so", "skip.py", "skip.pyc"]}
+            "model_branch": ["orphan", "skip.so", "skip.py", "skip.pyc"],
+            "by": ["name", "path", "relpath", "hidden", "missing_path", "stale_search", "default_search", "load_git", "dump", "check_tree", "check_ref"],
+            "entry_point": ["load", "load_git", "dump", "check_old", "check_new_ref", "check_new_tree"], "finder_paths": ["given", "sys.path"],
+            "load_nesting_depth": [0, 1, 2]}
     for d, keys in need.items():
         for kx in keys:
-            if not ctx.dist.get(d, {}).get(kx):
+            if not ctx.dist.get(d, {}).get(str(kx)):
                 ctx.tie_failure("harness", f"generator never reached {d}={kx}", None)
     if not ctx.quick:
         ctx.cross_check_extraction([model_input(ctx.scratch / "trees-x" / t["tid"], t, c, reqs, o) for t, c, o, reqs in batch[:400]], 40)
